@@ -7,12 +7,15 @@ package main
 // SQLite store (whose token service decides what a first message carrying a live token means).
 
 import (
+	"bytes"
 	"context"
 	"crypto/x509"
+	"encoding/base64"
 	"fmt"
 	"io"
 	"os"
 	"path/filepath"
+	"strings"
 
 	fdo "github.com/fido-device-onboard/go-fdo"
 	"github.com/fido-device-onboard/go-fdo/kex"
@@ -169,6 +172,121 @@ func restartClients(k keys.Kind) {
 				r.Distinct(fmt.Sprintf("restart|%s|%d.%d|%s|err=%v|replaced=%v", store, st.before, st.nth, mode, err2 != nil, replaced))
 				r.Sample(12, map[string]any{"layer": "restart", "store": store, "run1": pl.log, "run2": d.log, "mode": mode, "voucher_replaced": replaced})
 			}
+		}
+	}
+}
+
+// sqliteTokens: forged session tokens against the real SQLite token service. An honest client runs DI (and TO0) up to
+// its last message; in flight the token of that message is replaced by a damaged form that still NAMES the live
+// session (its first 16 octets) but does not carry its MAC. The request must be refused and cause no effect.
+func sqliteTokens(k keys.Kind) {
+	ctx := context.Background()
+	base := "/dev/shm"
+	if _, err := os.Stat(base); err != nil {
+		base = "/var/tmp"
+	}
+	dir, err := os.MkdirTemp(base, "verif-c08t-")
+	if err != nil {
+		r.Fatal("%v", err)
+	}
+	defer os.RemoveAll(dir)
+	type damage struct {
+		name string
+		f    func(raw, other []byte) []byte
+	}
+	damages := []damage{
+		{"honest (control)", func(raw, _ []byte) []byte { return raw }},
+		{"mac-last-bit-flipped", func(raw, _ []byte) []byte { o := bytes.Clone(raw); o[len(o)-1] ^= 1; return o }},
+		{"mac-first-bit-flipped", func(raw, _ []byte) []byte { o := bytes.Clone(raw); o[16] ^= 0x80; return o }},
+		{"mac-zeroed", func(raw, _ []byte) []byte { return append(bytes.Clone(raw[:16]), make([]byte, len(raw)-16)...) }},
+		{"mac-of-another-session", func(raw, other []byte) []byte { return append(bytes.Clone(raw[:16]), other[16:]...) }},
+		{"mac-truncated-by-one", func(raw, _ []byte) []byte { return bytes.Clone(raw[:len(raw)-1]) }},
+		{"mac-extended-by-one", func(raw, _ []byte) []byte { return append(bytes.Clone(raw), 0) }},
+		{"id-only", func(raw, _ []byte) []byte { return bytes.Clone(raw[:16]) }},
+	}
+	for di, dm := range damages {
+		for _, proto := range []string{"DI", "TO0"} {
+			db, err := sqlite.Open(filepath.Join(dir, fmt.Sprintf("tok-%d-%s.sqlite", di, proto)), "")
+			if err != nil {
+				r.Fatal("sqlite: %v", err)
+			}
+			for _, kk := range keys.Kinds {
+				key := keys.Get(kk.Alg, "owner1")
+				chain := []*x509.Certificate{keys.SelfSigned(kk.Alg+"-owner1", key)}
+				_ = db.AddOwnerKey(kk.Type, key, chain)
+				_ = db.AddManufacturerKey(kk.Type, key, chain)
+			}
+			srv := lab.NewServer("sql", "owner1", db, noMods{})
+			// another live session of the same protocol (its MAC is valid - for ITS id)
+			otherTok, _ := db.NewToken(ctx, map[string]protocol.Protocol{"DI": protocol.DIProtocol, "TO0": protocol.TO0Protocol}[proto])
+			otherRaw, _ := base64.RawURLEncoding.DecodeString(otherTok)
+			wire := lab.NewWire(srv)
+			last := map[string]int{"DI": 12, "TO0": 22}[proto]
+			applied := false
+			wire.Pre = func(x *lab.Exchange) {
+				if x.MsgType != last {
+					return
+				}
+				tok := strings.TrimPrefix(x.ReqHeader.Get("Authorization"), "Bearer ")
+				raw, err := base64.RawURLEncoding.DecodeString(tok)
+				if err != nil || len(raw) <= 16 || len(otherRaw) != len(raw) {
+					return
+				}
+				x.ReqHeader.Set("Authorization", "Bearer "+base64.RawURLEncoding.EncodeToString(dm.f(raw, otherRaw)))
+				applied = true
+			}
+			dev := lab.NewDevice(k, protocol.X509KeyEnc, "device")
+			var runErr error
+			effect := false
+			switch proto {
+			case "DI":
+				runErr = dev.DI(ctx, wire.Transport())
+				var c int
+				_ = db.DB().QueryRow("SELECT COUNT(*) FROM vouchers").Scan(&c)
+				effect = c > 0
+			case "TO0":
+				// a voucher to register: DI through a clean wire, extend to the owner key
+				if err := dev.DI(ctx, lab.NewWire(srv).Transport()); err != nil {
+					r.Fatal("token layer: DI: %v", err)
+				}
+				ov, err := db.RemoveVoucher(ctx, dev.Cred.GUID)
+				if err != nil {
+					r.Fatal("token layer: %v", err)
+				}
+				xv, err := lab.Extend(ov, keys.Get(k.Alg, "owner1"), keys.Get(k.Alg, "owner1"), k)
+				if err != nil {
+					r.Fatal("token layer: %v", err)
+				}
+				if err := db.AddVoucher(ctx, xv); err != nil {
+					r.Fatal("token layer: %v", err)
+				}
+				c0 := &fdo.TO0Client{Vouchers: db, OwnerKeys: db, TTL: 3600}
+				_, runErr = c0.RegisterBlob(ctx, wire.Transport(), dev.Cred.GUID, lab.DefaultAddrs())
+				_, _, berr := db.RVBlob(ctx, dev.Cred.GUID)
+				effect = berr == nil
+			}
+			_ = db.Close()
+			if !applied {
+				r.Violation("harness:token-layer", fmt.Sprintf("%s/%s: the token of message %d could not be rewritten", proto, dm.name, last), nil)
+				continue
+			}
+			r.Evaluations.Add(1)
+			r.States.Add(1)
+			what := fmt.Sprintf("%s over the SQLite store, message %d sent with its session token in the form %q: client result %v, effect=%v", proto, last, dm.name, runErr, effect)
+			repl := map[string]any{"layer": "sqlite-tokens", "proto": proto, "damage": dm.name}
+			if di == 0 {
+				if runErr != nil || !effect {
+					r.Violation("honest-history-fails:"+proto+":sqlite", what, repl)
+				}
+			} else {
+				if effect {
+					r.Violation("effect-with-forged-token:"+dm.name, what+": the effect happened under a token the store never issued", repl)
+				}
+				if runErr == nil {
+					r.Violation("accepted-with-forged-token:"+dm.name, what+": the request was accepted", repl)
+				}
+			}
+			r.Distinct(fmt.Sprintf("sqlite-tokens|%s|%s|err=%v|effect=%v", proto, dm.name, runErr != nil, effect))
 		}
 	}
 }
